@@ -7,7 +7,7 @@ PROP = {'areas': [{'area': 'c16', 'corpus': ['corpus/C16/witnesses.txt'], 'extra
             'extra': ['100'],
             'only_prop': 'C16',
             'quick': 12000,
-            'thorough': 1000000,
+            'thorough': 2000000,
             'tie_fields': ['out', 'done', 'outcome']}],
  'coq_target': 'Properties/C16.vo',
  'modelled': 'validate.rs (validate_packet_outbound / _outbound_internal / _inbound_internal, validate_user_properties, length helpers, ack macros, '
